@@ -86,7 +86,7 @@ theorem C07_first_match (cfg : Cfg) (hpt : cfg.pt ∈ parserTables) (e : Entry)
 /-- The documented overlap is real: `-2706` is both `-YYMM` and `±XCC` (two expanded digits), and the
     truncated form decodes it. -/
 theorem C07_overlap_witness :
-    tmatch Gen.Templates.t14 "-2706".toList = some [(.truncated, ['-']), (.yearOfCentury, ['2', '7']),
+    tmatch [.group .truncated ['-'], .digits .yearOfCentury 2, .digits .monthOfYear 2] "-2706".toList = some [(.truncated, ['-']), (.yearOfCentury, ['2', '7']),
       (.monthOfYear, ['0', '6'])] ∧
     (tmatch [.sign .yearSign, .digits .expandedYear 2, .digits .century 2] "-2706".toList).isSome = true := by
   decide +kernel
@@ -135,16 +135,23 @@ theorem C07_groups_date (cfg : Cfg) (hpt : cfg.pt ∈ parserTables) (de : Entry)
 
 /-! ## Non-vacuity -/
 
-example : fits Gen.Templates.t30 [(.yearSign, ['-']), (.expandedYear, ['0', '0']), (.century, ['0', '4']),
-    (.yearOfCentury, ['0', '0']), (.monthOfYear, ['0', '2']), (.dayOfMonth, ['2', '9'])] = true := by
+/-- `±XCCYY-MM-DD` with two expanded digits, as the live parser compiled it. -/
+def exTemplate : Template := [.sign .yearSign, .digits .expandedYear 2, .digits .century 2,
+  .digits .yearOfCentury 2, .lit '-', .digits .monthOfYear 2, .lit '-', .digits .dayOfMonth 2]
+
+def exEnv : Env := [(.yearSign, ['-']), (.expandedYear, ['0', '0']), (.century, ['0', '4']),
+  (.yearOfCentury, ['0', '0']), (.monthOfYear, ['0', '2']), (.dayOfMonth, ['2', '9'])]
+
+example : (Gen.Templates.parser_2_all.dateEntries.any fun e => e.tmpl = exTemplate) = true := by
   decide +kernel
+example : fits exTemplate exEnv = true := by decide +kernel
+example : trender exTemplate exEnv = "-000400-02-29".toList := by decide +kernel
+example : tmatch exTemplate "-000400-02-29".toList = some exEnv := by decide +kernel
 
-example : trender Gen.Templates.t30 [(.yearSign, ['-']), (.expandedYear, ['0', '0']), (.century, ['0', '4']),
-    (.yearOfCentury, ['0', '0']), (.monthOfYear, ['0', '2']), (.dayOfMonth, ['2', '9'])] =
-    "-000400-02-29".toList := by decide +kernel
+example : Plain ':' ∧ Plain '5' ∧ ZoneText "-00:30".toList :=
+  ⟨by decide, by decide, Or.inr (Or.inr ⟨'-', "00:30".toList, by decide, Or.inr rfl, by decide⟩)⟩
 
-example : Plain ':' ∧ Plain '5' ∧ ZoneText "-00:30".toList := by
-  refine ⟨by decide, by decide, Or.inr (Or.inr ⟨'-', "00:30".toList, by decide, Or.inr rfl, ?_⟩)⟩
-  decide
+example : dateOrder Gen.Templates.parser_2_all (dateTypes true []) ≠ [] ∧
+    (dateOrder Gen.Templates.parser_2_all (dateTypes true [])).any (isLoser 2) = true := by decide +kernel
 
 end IsoDT.Props.C07
